@@ -43,6 +43,14 @@ def ts_frame(rng, total, key=None, two=None, pid=None, hlen=None):
     return [pid, sid, dts, pts, rbytes(rng, hlen), rbytes(rng, total - hlen), key]
 
 
+CAP = 350 * 1024   # bytes per case: the extracted model recurses over whole streams (8 MB stack ~ 500 KB)
+
+
+def capped(rng, big, used):
+    n = size_dist(rng, big)
+    return n if used + n <= CAP else rng.randint(1, 400)
+
+
 def size_dist(rng, big):
     k = rng.random()
     if k < 0.35:
@@ -50,9 +58,9 @@ def size_dist(rng, big):
     if k < 0.7:
         # around multiples of 184: the stuffing paths of the last packet
         return max(1, 184 * rng.randint(1, 12) + rng.randint(-30, 30))
-    if k < 0.93:
-        return rng.randint(1, 6000)
     if k < 0.97:
+        return rng.randint(1, 6000)
+    if k < 0.985:
         return rng.randint(65480, 65560)          # PES_packet_length boundary
     return rng.randint(6000, big)
 
@@ -107,7 +115,7 @@ def mux_case(rng, mode, nframes, big, empty_video=False):
             if empty_video and rng.random() < 0.3:
                 frames.append([True, d, p, b""])
             else:
-                frames.append([True, d, p, nal(rng, size_dist(rng, big))])
+                frames.append([True, d, p, nal(rng, capped(rng, big, sum(len(f[3]) for f in frames)))])
         else:
             k = rng.random()
             n = 0 if k < 0.05 else (rng.randint(1, 400) if k < 0.7 else rng.randint(1, 8184))
@@ -153,7 +161,7 @@ def run(ck):
 
     # 2. random frame lists: both PIDs interleaved (continuity counters), empty payloads, all flags
     lists = []
-    for _ in range(2500 if T else 260):
+    for _ in range(1500 if T else 260):
         fs = []
         for _ in range(rng.randint(1, 40 if T else 18)):
             if rng.random() < 0.06:
@@ -161,7 +169,7 @@ def run(ck):
                 f[5] = b""                         # empty payload: nothing is written, counter untouched
                 fs.append(f)
             else:
-                fs.append(ts_frame(rng, size_dist(rng, big)))
+                fs.append(ts_frame(rng, capped(rng, big, sum(len(f[4]) + len(f[5]) for f in fs))))
         lists.append(fs)
     if T:
         for n in range(1, 200 * 1024, 4099):      # stepped sizes to 200 KiB
@@ -171,14 +179,14 @@ def run(ck):
 
     # 3. source frames through the packetizers (mode 0) and through mpegts.NewMuxer (mode 1)
     msig = lambda c, e, o: "mux:inband-paramset" if has_paramset(c) else "mux"
-    mux0 = [mux_case(rng, 0, rng.randint(1, 30 if T else 14), big) for _ in range(2500 if T else 220)]
+    mux0 = [mux_case(rng, 0, rng.randint(1, 30 if T else 14), big) for _ in range(1200 if T else 220)]
     # the D18 witness is replayed on every run: in-band SPS, PPS, AUD between slices
     mux0.append([0, bytes([0x67, 1, 2]), bytes([0x68, 3]), bytes([0x12, 0x10]),
                  [[True, 0, 0, bytes([0x67, 0x42, 0, 0x1e])], [True, 0, 0, bytes([0x68, 0xce, 0x38, 0x80])],
                   [True, 0, 0, bytes([0x09, 0xf0])], [True, 0, 40000000, bytes([0x65, 0x88, 0x84, 0])],
                   [False, 0, 0, bytes([0x21, 0x10, 5])], [True, 40000000, 40000000, bytes([0x41, 0x9a, 1])]], 3])
     ck.stream("packetizers", mux0, "C09_mux", "C09_mux", "C09_mux_ok", nontrivial=mux_nontrivial, sig=msig, sample=2)
-    mux1 = [mux_case(rng, 1, rng.randint(1, 30 if T else 14), big) for _ in range(600 if T else 60)]
+    mux1 = [mux_case(rng, 1, rng.randint(1, 30 if T else 14), big) for _ in range(300 if T else 60)]
     ck.stream("muxer", mux1, "C09_mux", "C09_mux", "C09_mux_ok", nontrivial=mux_nontrivial, sig=msig, sample=1)
 
     # 4. malformed: empty video payloads (Payload[0] on an empty slice); result left open by the property
